@@ -695,8 +695,6 @@ val bind : 'a1 res -> ('a1 -> 'a2 res) -> 'a2 res
 
 val raise : err -> path -> 'a1 res
 
-val raise_np : err -> 'a1 res
-
 val unsupported : 'a1 res
 
 val list_eqb : ('a1 -> 'a1 -> bool) -> 'a1 list -> 'a1 list -> bool
